@@ -575,6 +575,7 @@ type vcaseJSON struct {
 	Fam  int    `json:"fam"`
 	Len  int    `json:"len"`
 	Seed int    `json:"seed"`
+	Err  string `json:"err,omitempty"`
 }
 
 var v2Payload = []byte("GET /")
@@ -881,7 +882,7 @@ func main() {
 			m.V2Accepted++
 		}
 		vcoq = append(vcoq, coqVcase(vc, fam, length, seed, o))
-		vjs = append(vjs, vcaseJSON{"v2", vc, fam, length, seed})
+		vjs = append(vjs, vcaseJSON{"v2", vc, fam, length, seed, o.Err})
 	}
 	// spread the expensive (long) cases evenly over the shards
 	interleave := func(nLight int) {
@@ -940,6 +941,15 @@ func main() {
 						addV(vc, fam, l, (vc+fam+l)%200)
 					}
 				}
+			}
+		}
+		// every declared length 0..260 at least once (PROXY over IPv4 with a TLV tail, and LOCAL): bounds of whatever buffer
+		// the body is read into
+		for l := 0; l <= 260; l++ {
+			addV(0x21, 0x11, l, l%200)
+			if l%4 == 0 {
+				addV(0x20, 0x00, l, (l+7)%200)
+				addV(0x21, 0x21, l, (l+3)%200)
 			}
 		}
 		interleave(nLight)
